@@ -283,8 +283,8 @@ fn knob_case(rep: &mut Report, seed: u64, k: u64, thorough: bool) {
 pub fn run(p: &Params, rep: &mut Report) {
     rep.rule = "(a) for seeded texts over 1-4 byte codepoints (short: every sub-range; long 90-260 codepoints so that interval 100 matters) and each of 12 configurations (milestone interval 0,1,2,3,7,100 x shrink_to_fit), before and after annotations populate the position index: every position 0..=len+2 through utf8byte, every byte offset 0..=bytes+2 through utf8byte_to_charpos, round trip, on the resource and on sub-selections (bound and unbound), against a naive char_indices table; (b) the same seeded op-history replayed under the 12 configurations must yield identical full observations (all lookups) and identical segmentation / find_text / related_text answers. distinct_nontrivial = distinct (configuration, length class, multibyte?) cells + distinct store shapes compared".into();
     rep.assumptions = vec!["utf8byte on a selection for a position beyond the selection but inside the resource is not judged (undocumented)".into()];
-    let nconv: u64 = if p.thorough { 1500 } else { 60 };
-    let nknob: u64 = if p.thorough { 3000 } else { 80 };
+    let nconv: u64 = if p.thorough { 1500 } else { 200 };
+    let nknob: u64 = if p.thorough { 3000 } else { 400 };
     for k in p.cases(nconv + nknob) {
         rep.current_case = p.case_coord(k);
         rep.cases += 1;
